@@ -75,7 +75,7 @@ func (g *FnGen) doCall(ci ssa.CallInstruction, v ssa.Value) {
 	if c.IsInvoke() {
 		r := g.val(c.Value)
 		recv = &r
-		g.oblige("nil", site+"/recv", guard, not("(= "+r.T+" nil)"), "method call on nil interface", ci.Pos())
+		g.oblige(nilKind(c.Value), site+"/recv", guard, not("(= "+r.T+" nil)"), "method call on nil interface", ci.Pos())
 		for _, a := range c.Args {
 			args = append(args, g.val(a))
 		}
@@ -87,7 +87,7 @@ func (g *FnGen) doCall(ci ssa.CallInstruction, v ssa.Value) {
 			all = all[1:]
 			sig = sf.Signature
 			if _, isPtr := r.Go.Underlying().(*types.Pointer); isPtr && inRepoFn(sf) {
-				g.oblige("nil", site+"/recv", guard, not("(= "+r.T+" nil)"), "method call on nil pointer receiver", ci.Pos())
+				g.oblige(nilKind(c.Args[0]), site+"/recv", guard, not("(= "+r.T+" nil)"), "method call on nil pointer receiver", ci.Pos())
 			}
 		}
 		for _, a := range all {
